@@ -2743,7 +2743,9 @@ primary_expression
           {
             case OBJECT_TYPE_INTEGER:
               $$.type = EXPRESSION_TYPE_INTEGER;
-              $$.value.integer = $1.value.object->value.i;
+              // The value of an object (external variable or module field)
+              // is known only at scan time, it is not a compile-time constant.
+              $$.value.integer = YR_UNDEFINED;
               break;
             case OBJECT_TYPE_FLOAT:
               $$.type = EXPRESSION_TYPE_FLOAT;
